@@ -18,7 +18,10 @@ Record dcfg := mkdcfg {
   dc_pre : option bytes;
   (* write faults of the output target: one entry per Write/WriteAt call the StorageCar issues on it
      (Store.v d_faults: None = the call succeeds, Some k = only k bytes get out and the call fails) *)
-  dc_faults : list (option N) }.
+  dc_faults : list (option N);
+  (* re-entrant registration: what the callback with a given id does WHEN IT FIRES -- it calls OnPut for
+     the listed (id, once) callbacks (from inside the running Put).  [] = ordinary callbacks only. *)
+  dc_kids : list (N * list (N * bool)) }.
 
 (* os.OpenFile(path, O_CREATE|O_TRUNC|O_WRONLY): whatever was at the path, the file now exists and is
    empty.  (Store.open_new starts from exactly this empty file.) *)
@@ -72,6 +75,38 @@ Fixpoint cb_loop (fuel : nat) (i : nat) (cbs : list (N * bool)) (log : list N) :
 Definition fire (cbs : list (N * bool)) : option (list (N * bool) * list N) :=
   cb_loop (S (length cbs)) 0 cbs [].
 
+(* the same loop when callbacks register further callbacks while it runs: OnPut appends to putCb, the loop
+   re-reads len(putCb) on every iteration, so a callback registered from inside a Put fires later IN THE
+   SAME Put (and a once-callback among them is removed again by it) *)
+Fixpoint kids_of (t : list (N * list (N * bool))) (id : N) : list (N * bool) :=
+  match t with
+  | [] => []
+  | (i, l) :: r => if id =? i then l else kids_of r id
+  end.
+Fixpoint cb_loop_re (t : list (N * list (N * bool))) (fuel : nat) (i : nat) (cbs : list (N * bool)) (log : list N)
+  : option (list (N * bool) * list N) :=
+  match fuel with
+  | O => None
+  | S f =>
+    match nth_error cbs i with
+    | None => Some (cbs, log)
+    | Some (id, once) =>
+        let cbs1 := cbs ++ kids_of t id in           (* cb.cb(n) runs first: it may call OnPut *)
+        if once then cb_loop_re t f i (remove_nth i cbs1) (log ++ [id])
+        else cb_loop_re t f (S i) cbs1 (log ++ [id])
+    end
+  end.
+Definition kids_total (t : list (N * list (N * bool))) : nat :=
+  fold_right (fun e a => (length (snd e) + a)%nat) 0%nat t.
+(* fuel: enough for registration tables that nest at most two levels (a cyclic table makes the real loop
+   run for ever; the model answers EFuel) *)
+Definition fire_re (t : list (N * list (N * bool))) (cbs : list (N * bool)) : option (list (N * bool) * list N) :=
+  match t with
+  | [] => fire cbs
+  | _ => let k := kids_total t in
+         cb_loop_re t (S (length cbs * (1 + k + k * k))) 0 cbs []
+  end.
+
 (* dcw.writer(): creates the file (path target) and the StorageCar on first use *)
 Definition d_writer (c : dcfg) (st : dstate) : dstate * res wstate :=
   match d_inner st with
@@ -97,7 +132,7 @@ Definition d_step (c : dcfg) (st : dstate) (op : dop) : dstate * dout :=
   | DPut k d =>
       if d_closed st then (st, mkdout (OErr EClosed) [])
       else
-        match fire (d_cbs st) with
+        match fire_re (dc_kids c) (d_cbs st) with
         | None => (st, mkdout (OErr EFuel) [])
         | Some (cbs', ids) =>
           let log := map (fun id => (id, blen d)) ids in
@@ -242,4 +277,25 @@ Fixpoint dx_flatten (b : dbufs) (ops : list dxop) : list dop :=
                | (Some o, b') => o :: dx_flatten b' t
                | (None, b') => dx_flatten b' t
                end
+  end.
+
+(* layer B for re-entrant registration: the callbacks a Put invokes are the live ones, then the ones those
+   register, then the ones THOSE register, ... (level order: the loop is a queue); once-callbacks of every
+   level are gone afterwards.  depth = 1 + size of the table is enough for an acyclic table. *)
+Fixpoint cb_levels (t : list (N * list (N * bool))) (depth : nat) (cbs : list (N * bool)) : list (N * bool) :=
+  match depth with
+  | O => []
+  | S d => match cbs with
+           | [] => []
+           | _ => cbs ++ cb_levels t d (flat_map (fun cb => kids_of t (fst cb)) cbs)
+           end
+  end.
+Definition fired_re (t : list (N * list (N * bool))) (cbs : list (N * bool)) : list (N * bool) :=
+  cb_levels t (S (S (length t))) cbs.
+Definition live_step_re (t : list (N * list (N * bool))) (acc : list (N * bool) * bool) (op : dop)
+  : list (N * bool) * bool :=
+  let '(cbs, closed) := acc in
+  match op with
+  | DPut _ _ => if closed then acc else (filter (fun cb => negb (snd cb)) (fired_re t cbs), closed)
+  | _ => live_step acc op
   end.
